@@ -8,6 +8,7 @@ import (
 	"github.com/hashicorp/hcl/v2"
 	"github.com/hashicorp/hcl/v2/hclsyntax"
 	"github.com/zclconf/go-cty/cty"
+	"github.com/zclconf/go-cty/cty/convert"
 	"pgregory.net/rapid"
 
 	"verifharness/ast"
@@ -120,3 +121,5 @@ func drawLayouts(t *rapid.T, n ast.Node, k int, wild int) ([]string, map[string]
 	}
 	return out, feats
 }
+
+func convertTo(v cty.Value, ty cty.Type) (cty.Value, error) { return convert.Convert(v, ty) }
